@@ -34,21 +34,15 @@
 
 namespace c17ixs {
 using namespace GeographicLib;
-using gv::Args; using gv::hx; using gv::unhx; using gv::emit; using gv::bad; using gv::Reg; using gv::Rng;
-using c17isect::World; using c17isect::world; using c17isect::num; using c17isect::pt;
-typedef Intersect::XPoint XP; typedef Intersect::Point Pnt;
+using gv::Args; using gv::hx; using gv::unhx; using gv::emit; using gv::Reg; using gv::Rng;
+inline void bad(const std::string& relation, const std::string& details) { gv::bad(relation, details); }
+using c17isect::World; using c17isect::world; using c17isect::num; using c17isect::pt; using c17isect::XP; using c17isect::Pnt;
 
 inline std::string xp(const XP& p) { return hx(p.x) + " " + hx(p.y) + " " + std::to_string(p.c); }
 inline bool same(double a, double b) { return gv::bits(a) == gv::bits(b) || (std::isnan(a) && std::isnan(b)); }
 inline bool samePt(const Pnt& a, const Pnt& b) { return same(a.first, b.first) && same(a.second, b.second); }
 
-// Basic(start) with its number of iterations, as a table entry
-struct BE { XP s, b; long long its; };
-inline BE basicAt(const Intersect& in, const GeodesicLine& lX, const GeodesicLine& lY, const XP& s) {
-  long long k = in.NumInverse(); XP b = in.Basic(lX, lY, s); long long its = in.NumInverse() - k;
-  if (its >= Intersect::numit_) gv::stat("basic-not-converged");
-  return BE{s, b, its};
-}
+using c17isect::BE; using c17isect::basicAt; using c17isect::gridTable; using c17isect::capped; using c17isect::allStarts;
 inline std::string table(const std::vector<BE>& t) {
   std::string o = " T " + std::to_string(t.size());
   for (auto& e : t) o += " " + hx(e.s.x) + " " + hx(e.s.y) + " " + xp(e.b) + " " + std::to_string(e.its);
@@ -63,24 +57,6 @@ inline void monotone(const Cnt& a, const Cnt& b) {
   if (b.c0 < a.c0 || b.c1 < a.c1 || b.c2 < a.c2 || b.c3 < a.c3 || b.c4 < a.c4 || (b.c1 - a.c1) > (b.c0 - a.c0))
     bad("counters-monotone", "a diagnostic counter decreased or NumBasic grew more than NumInverse");
 }
-// the (2k+1) x (2k+1) grid of candidate starts p0 + (i d, j d), |i|, |j| <= k: a superset of every start table the search can use
-inline std::vector<BE> gridTable(const Intersect& in, const GeodesicLine& lX, const GeodesicLine& lY, const XP& p0, double d, int k) {
-  std::vector<BE> t;
-  for (int i = -k; i <= k; ++i) for (int j = -k; j <= k; ++j) t.push_back(basicAt(in, lX, lY, p0 + XP(i * d, j * d)));
-  return t;
-}
-// did one of the Basic calls the query can make run into the iteration cap?  (class of finding F57)
-inline bool capped(const std::vector<BE>& t) { for (auto& e : t) if (e.its >= Intersect::numit_) return true; return false; }
-
-// the start points of AllInt0, exactly as the code forms them
-inline std::vector<XP> allStarts(const Intersect& in, double maxdist, const XP& p0, int& m) {
-  double maxdistx = maxdist + in._delta; m = int(std::ceil(maxdistx / in._d3));
-  int n = m - 1; double d3 = maxdistx / m;
-  std::vector<XP> st; st.push_back(p0);
-  for (int i = -n; i <= n; i += 2) for (int j = -n; j <= n; j += 2) if (!(i == 0 && j == 0)) st.push_back(p0 + XP(d3 * (i + j) / 2, d3 * (i - j) / 2));
-  return st;
-}
-
 // ------------------------------------------------------------------------------------------------------------ ops
 inline void op_consts(const Args& a) {
   World& w = world(unhx(a[0]), unhx(a[1]), std::atoi(a[2].c_str())); const Intersect& in = w.in;
